@@ -4,7 +4,7 @@
 EXTENDS ReqParse, TLC, Json, IOUtils
 
 Thorough == IOEnv.VF_TIER = "thorough"
-TokN == IF Thorough THEN 5 ELSE 4
+TokN == 4
 TplN == 5
 
 ASSUME LemmaEncodable
@@ -17,9 +17,10 @@ FsCases == SetToSeq({[k |-> "fs", w |-> "in", path |-> JoinWith(f, <<SL>>), body
                     \cup {[k |-> "fs", w |-> "out", path |-> JoinWith(f, <<SL>>), body |-> MarkOut(f)] : f \in FilesOutside})
 IdCases == <<[k |-> "ids", triples |-> SetToSeq(Triples)]>>
 TcpCases == SetToSeq({[k |-> "tcp", args |-> a, lines |-> SetToSeq(TcpLines(a, Thorough))] : a \in TcpLists(Thorough)})
-UriCases == SetToSeq({[k |-> "uri", u |-> u] : u \in TokenUris(TokN, ~Thorough)})
+UriCases == SetToSeq({[k |-> "uri", u |-> u] : u \in TokenUris(TokN, TRUE)})
+TokCases == <<[k |-> "tokens", list |-> SetToSeq(UriTokens)]>>     \* for the seeded random longer URIs
 TplCases == SetToSeq({[k |-> "tpl", parts |-> t, texts |-> SetToSeq({Render(t, TRUE), Render(t, FALSE)})] : t \in Templates(TplN)})
 
-ASSUME ndJsonSerialize(IOEnv.VF_OUT, FsCases \o IdCases \o TcpCases \o UriCases \o TplCases)
+ASSUME ndJsonSerialize(IOEnv.VF_OUT, FsCases \o IdCases \o TokCases \o TcpCases \o UriCases \o TplCases)
 ASSUME PrintT(<<"VF", "GEN", Len(FsCases), Len(TcpCases), Len(UriCases), Len(TplCases)>>)
 =============================================================================
